@@ -195,6 +195,13 @@ def run(tier):
                 c['globals'] = {alias: ['hostfn', 'count']}
             cases.append(c)
             meta.append(('shadow', where, expect_builtin))
+        # a name bound to a NON-function value still wins over the built-in: the call then fails (null), it does not fall back
+        for where in ('locals', 'globals'):
+            for spec in (interp.vflt(7.0), ['str', 'text']):
+                c = {'expr_text': f'{alias}({arg})', 'globals': {}, 'locals': None, 'builtins': True}
+                c[where] = {alias: spec}
+                cases.append(c)
+                meta.append(('shadow-value', where, None))
     impl = core.run_impl('run_script', cases)
 
     dist, nontrivial, skipped, timeouts = {}, set(), 0, 0
@@ -211,6 +218,11 @@ def run(tier):
             continue
         if 'host' in res:
             chk.oracle_fail.append({'class': 'host-exception', **info, 'got': res})
+            continue
+        if tag == 'shadow-value':
+            if res.get('res') != ['null']:
+                chk.oracle_fail.append({'class': 'bound-non-function-does-not-win-over-built-in', **info, 'bound_in': m[1], 'expected': ['null'],
+                                        'got': res.get('res') or res.get('rt')})
             continue
         if tag == 'shadow':
             want = 1.0 if m[1] in ('locals', 'globals') else m[2]
